@@ -136,7 +136,10 @@ ActionStringDeterministic == \A a \in ActionNames : Cardinality(ActionStrings(a)
 (* was, so it must compile to what the other compiled to: the result is a  *)
 (* function of the exported fields, not of what the value held earlier).   *)
 CONSTANT MaxHist
-HistOps == {"A0", "A1", "D0", "D1", "G", "S", "X"}
+\* F: a compilation that FAILS part-way (a third value whose second group names an unknown syscall, so that the first group
+\* has been compiled when the error is found).  A failure is a result like any other: it must leave nothing behind that a
+\* later compilation could see.
+HistOps == {"A0", "A1", "D0", "D1", "G", "S", "X", "F"}
 \* which policy (0 / 1) value v holds after history h; the expected result of A<v> / D<v> after h is F(Holds(h, v))
 Holds(h, v) == LET swaps == Cardinality({i \in 1..Len(h) : h[i] = "X"}) IN IF swaps % 2 = 0 THEN v ELSE 1 - v
 RECURSIVE HistOfLen(_)
